@@ -34,23 +34,71 @@ func noEffectBeforeError(p *load.Program, r *kit.Report, rule string, f *ssa.Fun
 	}
 	for _, ret := range kit.Returns(f) {
 		cls := kit.ReturnErrClass(ret)
-		key := k.key(short + "/" + retLabel(ret))
 		if cls == kit.ErrNil {
-			r.OKTrivial(rule, key, posOf(p, ret), "returns nil: accepting or no-op return")
+			r.OKTrivial(rule, k.key(short+"/"+retLabel(ret)), posOf(p, ret), "returns nil: accepting or no-op return")
 			continue
 		}
-		bad := false
-		for _, e := range eps {
-			if e.reach.Has(ret) {
-				r.Bad(rule, key, posOf(p, ret),
-					"refusal reachable after state was changed: effect %q at %s reaches this non-nil return via %s",
-					e.e.Desc, posOf(p, e.e.Instr), e.reach.PathTo(ret, p.Pos))
-				bad = true
-				break
+		// one obligation per origin of the returned error: the return itself, or (when the
+		// operand merges several errors, as after the expansion of a helper) each edge on which
+		// a possibly non-nil error enters the merge
+		type origin struct {
+			edge *kit.Edge
+			at   ssa.Instruction
+			lbl  string
+		}
+		var origins []origin
+		idx := kit.ErrResultIndex(f)
+		seen := map[ssa.Value]bool{}
+		var walk func(v ssa.Value, e *kit.Edge, at ssa.Instruction)
+		walk = func(v ssa.Value, e *kit.Edge, at ssa.Instruction) {
+			ph, isPhi := v.(*ssa.Phi)
+			if !isPhi || seen[v] {
+				if kit.IsNilConst(v) {
+					return
+				}
+				lbl := retLabel(ret)
+				if e != nil {
+					lbl = "return " + errLabel(v, 0)
+				}
+				origins = append(origins, origin{e, at, lbl})
+				return
+			}
+			seen[v] = true
+			for i, inc := range ph.Edges {
+				pred := ph.Block().Preds[i]
+				for si, sc := range pred.Succs {
+					if sc == ph.Block() {
+						walk(inc, &kit.Edge{From: pred, Succ: si}, pred.Instrs[len(pred.Instrs)-1])
+						break
+					}
+				}
 			}
 		}
-		if !bad {
-			r.OK(rule, key, posOf(p, ret), "no effect point of %d reaches this return (class %d)", len(eps), cls)
+		if idx >= 0 {
+			walk(kit.RetOperand(ret, idx), nil, ret)
+		}
+		if len(origins) == 0 {
+			origins = append(origins, origin{nil, ret, retLabel(ret)})
+		}
+		for _, o := range origins {
+			key := k.key(short + "/" + o.lbl)
+			bad := false
+			for _, e := range eps {
+				hit := e.reach.Has(ret)
+				if hit && o.edge != nil {
+					hit = e.reach.Edges[*o.edge]
+				}
+				if hit {
+					r.Bad(rule, key, posOf(p, o.at),
+						"refusal reachable after state was changed: effect %q at %s reaches this non-nil return via %s",
+						e.e.Desc, posOf(p, e.e.Instr), e.reach.PathTo(ret, p.Pos))
+					bad = true
+					break
+				}
+			}
+			if !bad {
+				r.OK(rule, key, posOf(p, o.at), "no effect point of %d reaches this return (class %d)", len(eps), cls)
+			}
 		}
 	}
 	r.Extra[rule+"/effect_points"] = len(eps)
